@@ -137,21 +137,28 @@ META = {
        "table search (quantified invariant), message parameters/suffix with the %-format havocked, and the entry loop of parse_ilog_data for any "
        "length (invariant over a recursively defined line list).",
   note="Assumed: re.compile/fullmatch on [0-9A-Fa-f.] patterns is position-wise matching (cross-checked on 4000+ random pairs per run); the "
-       "header-file grammar is bounded only (2 shipped tables + generated tables).",
-  assumptions=["table-file grammar: bounded"]),
+       "reader of the header file (PTETable._parse_header_file) is proved for a file of any number of arbitrary lines - entries == fold of the "
+       "table grammar's state machine over the lines, in file order - with regex matching abstracted (match = uninterpreted predicate of "
+       "(pattern, line), groups = uninterpreted functions); what the three regex constants accept is bounded only (2 shipped tables + generated "
+       "tables); _add_entry is proved symbolically for parameter fields of 0..5 characters (bounded, not counted as proved).",
+  assumptions=["regex constants of the table grammar (which lines TBL_START_RE / TBL_ENTRY_RE / TBL_END_RE accept): bounded",
+               "_add_entry: parameter fields longer than the stated bound: bounded (grammar companion)"]),
  'C15': dict(
   level='proof',
   text="Proof: header read, entry framing (all lengths 0..65535, every alignment), argument extraction, exact/last-partial string lookup "
        "(quantified invariant), TraceBuffer.read (inductive invariant over recursively defined entry positions), entry rendering incl. indented "
        "hex dump (invariant), parse_trace_data (invariant).",
-  note="Trace string file grammar is bounded only (2 shipped files + generated files).",
-  assumptions=["string-file grammar: bounded"]),
+  note="TraceStringFile.__init__ is proved for a file of any number of arbitrary lines (trace strings == the lines the line pattern accepts, in file "
+       "order; hash = int(group 1), message/location = groups 2/3 stripped) with regex matching abstracted; what LINE_RE accepts is bounded only "
+       "(2 shipped files + generated files).",
+  assumptions=["regex constant of the string-file grammar (which lines LINE_RE accepts, what its groups hold): bounded"]),
  'C16': dict(
   level='proof',
   text="Proof for arbitrary field tables (symbolic count, names, sizes 1|2) and every data length: contiguous consumption from offset 0, one "
        "line per non-zero field with zero-padded width, stop at the first field that does not fit; hex dump via the C13 contract.",
-  note="get_hlog_fields (header-file grammar) is bounded only.",
-  assumptions=["field-table grammar: bounded"]),
+  note="get_hlog_fields is proved for a file of any number of arbitrary lines (fields == fold of the grammar's state machine over the lines, in "
+       "file order, width 1|2 from group 1) with regex matching abstracted; what the three regex constants accept is bounded only.",
+  assumptions=["regex constants of the field-table grammar (which lines HLOG_START_RE / HLOG_FIELD_RE / HLOG_END_RE accept): bounded"]),
  'C17': dict(
   level='proof',
   text="Proof: parse_dump_data for every byte string and every subset/order of the six recognised headers: regions are consecutive, cover "
